@@ -9,9 +9,18 @@ macro_rules! cfg {
     }};
 }
 
+macro_rules! cfg_huge {
+    ($run:expr, $fam:ident, $n:literal, $z:ty) => {{
+        // the widest configurations of the quantifier (8192 bits), small plan
+        $run.explore(&t::$fam::u::<$n, $z>(), &plans::pow_plan_huge::<$fam::U<$n>>());
+        $run.explore(&t::$fam::i::<$n, $z>(), &plans::pow_plan_huge::<$fam::I<$n>>());
+    }};
+}
+
 fn main() {
     let mut run = Run::from_args("C08", "c08");
     vcore::core_configs!(cfg, run);
+    vcore::huge_configs!(cfg_huge, run);
     // logarithms on very wide types (estimates from the bit length go wrong only far above 1024 bits)
     {
         let stride = if run.tier == Tier::Thorough { 1 } else { 16 };
